@@ -47,7 +47,7 @@ type dObs struct {
 func dCfg(jobs [][2]int) *prom.ConfigInfo {
 	c := &config.Config{}
 	for _, jv := range jobs {
-		sc := &config.ScrapeConfig{JobName: fmt.Sprintf("job%d", jv[0]), Scheme: "http", MetricsPath: "/metrics", ScrapeTimeout: model.Duration(time.Second)}
+		sc := &config.ScrapeConfig{JobName: dJobName(jv[0]), Scheme: "http", MetricsPath: "/metrics", ScrapeTimeout: model.Duration(time.Second)}
 		if jv[1] == 1 {
 			sc.RelabelConfigs = []*relabel.Config{{SourceLabels: model.LabelNames{"drop"}, Separator: ";", Regex: relabel.MustNewRegexp("1"), Action: relabel.Drop}}
 		}
@@ -162,11 +162,11 @@ func discoveryRun(in interface{}) (string, interface{}, map[string]int) {
 				for j := range m {
 					names = append(names, j)
 				}
-				sort.Strings(names)
+				sort.Slice(names, func(a, b int) bool { return dJobID(names[a]) < dJobID(names[b]) })
 				var items []string
 				for _, j := range names {
 					var id int
-					fmt.Sscanf(j, "job%d", &id)
+					id = dJobID(j)
 					var as []string
 					for _, a := range m[j] {
 						as = append(as, cN(uint64(a)))
@@ -219,7 +219,7 @@ func discoveryRun(in interface{}) (string, interface{}, map[string]int) {
 					msg[job] = []*targetgroup.Group{}
 				}
 				var id int
-				fmt.Sscanf(job, "job%d", &id)
+				id = dJobID(job)
 				jobsT = append(jobsT, fmt.Sprintf("(%s, %s)", cN(uint64(id)), cList(gsT)))
 			}
 			sdChan <- msg
@@ -234,7 +234,7 @@ func discoveryRun(in interface{}) (string, interface{}, map[string]int) {
 				job = j
 			}
 			var id int
-			fmt.Sscanf(job, "job%d", &id)
+			id = dJobID(job)
 			msg := map[string][]*targetgroup.Group{}
 			// a first group with one target that cannot be built (no address): logged, contributes nothing
 			msg[job] = append(msg[job], &targetgroup.Group{Source: job + "/pause", Targets: []model.LabelSet{{"noaddr": "1"}}})
@@ -324,6 +324,22 @@ func discoveryRun(in interface{}) (string, interface{}, map[string]int) {
 	return term, seen, st
 }
 
+// job names: two of the three differ only in letter case (legal and distinct for Prometheus)
+func dJobName(id int) string {
+	if id == 2 {
+		return "Job0"
+	}
+	return fmt.Sprintf("job%d", id)
+}
+func dJobID(name string) int {
+	if name == "Job0" {
+		return 2
+	}
+	id := -1
+	fmt.Sscanf(name, "job%d", &id)
+	return id
+}
+
 func discoveryGen(r *rand.Rand, idx int, thorough bool) interface{} {
 	c := &dCase{}
 	n := 2 + r.Intn(6)
@@ -365,7 +381,7 @@ func discoveryGen(r *rand.Rand, idx int, thorough bool) interface{} {
 				}
 			}
 			cfg = ncfg
-			c.Ops = append(c.Ops, dOp{Kind: "race", Groups: map[string][][]dTarget{fmt.Sprintf("job%d", jv[0]): gs}, Jobs: append([][2]int{}, cfg...)})
+			c.Ops = append(c.Ops, dOp{Kind: "race", Groups: map[string][][]dTarget{dJobName(jv[0]): gs}, Jobs: append([][2]int{}, cfg...)})
 			continue
 		}
 		op := dOp{Kind: "update", Groups: map[string][][]dTarget{}}
@@ -374,7 +390,7 @@ func discoveryGen(r *rand.Rand, idx int, thorough bool) interface{} {
 			if !full && r.Intn(2) == 0 {
 				continue
 			}
-			job := fmt.Sprintf("job%d", jv[0])
+			job := dJobName(jv[0])
 			gs := [][]dTarget{}
 			for g := 0; g < r.Intn(3); g++ {
 				var ts []dTarget
